@@ -42,3 +42,151 @@ class LEN:
         if is_err(text):
             return text
         return len(text_of(text))
+
+
+@contract('hotxlfp.formulas.text:UPPER', props=['C15'])
+class UPPER:
+    # "changes only letter case" and idempotence are properties of str.upper (assumed, sampled natively)
+    args = dict(text=SCALAR)
+
+    def spec(text):
+        if is_err(text):
+            return text
+        return text_of(text).upper()
+
+
+@contract('hotxlfp.formulas.text:LOWER', props=['C15'])
+class LOWER:
+    args = dict(text=SCALAR)
+
+    def spec(text):
+        if is_err(text):
+            return text
+        return text_of(text).lower()
+
+
+@contract('hotxlfp.formulas.text:PROPER', props=['C15'])
+class PROPER:
+    args = dict(text=SCALAR)
+
+    def spec(text):
+        if is_err(text):
+            return text
+        return text_of(text).title()
+
+
+@contract('hotxlfp.formulas.text:TRIM', props=['C15'])
+class TRIM:
+    # surplus spaces only: runs of U+0020 collapse to one, leading/trailing U+0020 are removed; tabs/newlines stay
+    args = dict(value=SCALAR)
+
+    def spec(value):
+        if not is_str(value):
+            return value
+        return collapse_spaces(value).strip(' ')
+
+
+@contract('hotxlfp.formulas.text:CLEAN', props=['C15'], bounded_only=True,
+          reason='generator expression filtering the characters of a symbolic string')
+class CLEAN:
+    args = dict(text=SCALAR)
+
+    def spec(text):
+        if is_err(text):
+            return text
+        return ''.join([c for c in text_of(text) if ord(c) > 31])
+
+
+@contract('hotxlfp.formulas.text:CHAR', props=['C15'])
+class CHAR:
+    args = dict(number=INT)
+
+    def pre(number):
+        return 0 <= number and number <= 0x2FFFF     # solver alphabet; the rest of the range is bounded (native) only
+
+    def spec(number):
+        return chr(number)
+
+
+@contract('hotxlfp.formulas.text:CODE', props=['C15'])
+class CODE:
+    args = dict(char=STR)
+
+    def pre(char):
+        return len(char) == 1
+
+    def spec(char):
+        return ord(char)
+
+
+@lemma(props=['C15'])
+class code_of_char:
+    """ CODE(CHAR(n)) = n """
+    args = dict(n=INT)
+
+    def pre(n):
+        return 0 <= n and n <= 0x2FFFF
+
+    def claim(n):
+        return CODE.spec(CHAR.spec(n)) == n
+
+
+@contract('hotxlfp.formulas.text:CONCATENATE', props=['C15'])
+class CONCATENATE:
+    # arities 0..3 (values unbounded); nested arrays and larger arities: bounded stand-in
+    cases = [dict(args=()), dict(args=TUPLE(SCALAR)), dict(args=TUPLE(SCALAR, SCALAR)),
+             dict(args=TUPLE(SCALAR, SCALAR, SCALAR))]
+    bounded_args = dict(args=ARGS(VALUE_T))
+
+    def spec(args):
+        items = flat(args)
+        for i in range(0, 3):
+            if i < len(items) and is_err(items[i]):
+                return items[i]
+        out = ''
+        for i in range(0, 3):
+            if i < len(items):
+                out = out + (items[i] if is_str(items[i]) else str(items[i]))
+        return out
+
+
+@contract('hotxlfp.formulas.text:TEXTJOIN', props=['C15'])
+class TEXTJOIN:
+    args = dict(delimiter=SCALAR, ignore_empty=SCALAR)
+    cases = [dict(args=()), dict(args=TUPLE(STR | NONE_T)), dict(args=TUPLE(STR | NONE_T, STR | NONE_T)),
+             dict(args=TUPLE(STR | NONE_T, STR | NONE_T, STR | NONE_T))]
+
+    def pre(delimiter, ignore_empty, args):
+        return not is_err(ignore_empty)
+
+    def spec(delimiter, ignore_empty, args):
+        if not is_str(delimiter):
+            return VALUE
+        out = ''
+        first = True
+        for i in range(0, 3):
+            if i < len(args):
+                item = args[i]
+                if item is None and truth(ignore_empty):
+                    continue
+                if not first:
+                    out = out + delimiter
+                first = False
+                out = out + ('' if item is None else item)
+        return out
+
+
+@contract('hotxlfp.formulas.text:SUBSTITUTE', props=['C15', 'C01'])
+class SUBSTITUTE:
+    # guard logic and the replace-all form are proved; the k-th-occurrence loop is decided by the bounded stand-in only
+    args = dict(text=STR, old_text=STR, new_text=STR)
+    cases = [dict(instance_num=OMITTED), dict(instance_num=INT)]
+
+    def spec(text, old_text, new_text, instance_num):
+        if instance_num is not OMITTED and instance_num <= 0:
+            return VALUE
+        if len(text) == 0 or len(old_text) == 0:
+            return text
+        if instance_num is OMITTED:
+            return text.replace(old_text, new_text)
+        return replace_kth(text, old_text, new_text, instance_num)
